@@ -783,7 +783,10 @@ fn apply_fold_specific_filter<'query, AdapterT: Adapter<'query>>(
         let value = match tagged_value {
             TaggedValue::Some(value) => value,
             TaggedValue::NonexistentOptional => {
-                unreachable!("while applying fold-specific filter, the @fold turned out to not exist: {ctx:?}")
+                // The @fold is inside an @optional scope that does not exist, so the context
+                // has no active vertex: filters inside a nonexistent optional always pass,
+                // which apply_filter() decides before looking at this placeholder value.
+                FieldValue::Null
             }
         };
         ctx.values.push(value);
